@@ -114,6 +114,12 @@ int main(int argc, char **argv) {
     std::vector<Pattern> big{hx::band_pattern(4,1),hx::band_pattern(5,1),hx::arrow_pattern(4),hx::grid_pattern(2,2),hx::band_pattern(4,2)}; if (T) { big.push_back(hx::dense_pattern(4,4)); big.push_back(hx::arrow_pattern(5)); big.push_back(hx::grid_pattern(3,2)); for (int k=0;k<10;++k) big.push_back(hx::random_pattern(4,4,rng,2,true)); }
     for (auto &p : pats) { jacobi_case(p); spai0_case(p); gs_case(p); ilu0_case(p,false); if (p.n==3 || T) { ilu0_case(p,true); iluk_case(p,1); ilup_case(p,1); } if (p.n<=2 || T || rng.below(8)==0) ilut_case(p); if (p.n==3 && (T || rng.below(4)==0)) { iluk_case(p,2); iluk_case(p,3); } asprec_case(p); }
     for (auto &p : big) { jacobi_case(p); spai0_case(p); gs_case(p); ilu0_case(p,false); ilu0_case(p,true); iluk_case(p,1); if (p.n<=5) iluk_case(p,p.n); /* ILU(k=n) on the 3x2 grid: 20 sweep obligations beyond the 60 s budget */ ilup_case(p,1); if (T) ilup_case(p,2); }
+    // ILU(2): level bookkeeping when a fill position is reached through several pivots (needs patterns with longer elimination chains)
+    for (auto &p : big) if (p.n>=5 || T) iluk_case(p,2); for (int k=0;k<(T?24:8);++k) iluk_case(hx::random_pattern(6,6,rng,2,true),2);
+    { // a fill position reached through two pivots, the earlier one giving the higher level, and itself producing level-2 fill
+      auto from_entries=[](int n, std::vector<std::pair<int,int>> e, const std::string &nm) { std::vector<std::set<int>> rows(n); for (int i=0;i<n;++i) rows[i].insert(i); for (auto &x : e) rows[x.first].insert(x.second); Pattern p; p.n=p.m=n; p.ptr.push_back(0); for (int i=0;i<n;++i) { for (int c : rows[i]) p.col.push_back(c); p.ptr.push_back(p.col.size()); } p.name=nm; return p; };
+      iluk_case(from_entries(6,{{1,0},{0,3},{4,1},{4,2},{2,3},{3,5}},"chain6"),2); iluk_case(from_entries(6,{{1,0},{0,3},{4,1},{4,2},{2,3},{3,5}},"chain6"),3);
+      iluk_case(from_entries(7,{{1,0},{0,1},{3,0},{0,3},{4,1},{1,4},{4,2},{2,4},{3,2},{2,3},{5,3},{3,5},{6,5},{5,6}},"chain7sym"),2); }
     ilu0_block_case(2);
     for (int k=0;k<(T?12:4);++k) { Pattern p = k%2 ? hx::grid_pattern(2+k%3,2) : hx::random_sym_pattern(3+rng.below(4),rng,2); for (int deg=1;deg<=(T?5:3);++deg) { cheb_case(p,rng,deg,false); cheb_case(p,rng,deg,true); if (deg==2 || T) { cheb_case(p,rng,deg,false,1.25f,0.0625f); cheb_case(p,rng,deg,true,0.75f,0.125f); } } }
     // SPAI-1: rows with at most two stored entries (the QR of wider rows leaves nested radicals z3 does not resolve within the budget)
